@@ -195,6 +195,13 @@ Fixpoint vhistory (hypot : T -> T -> T) (v : list T) (h : list vstep) : res (lis
   | s :: h' => rbind (vstep_apply hypot v s) (fun v' => vhistory hypot v' h')
   end.
 
+(** Rotation_Matrix(alpha, dim, obj) and Spherical_Coordinates(r, theta, phi, obj) for an object constructed from [start]
+    that has lived through the history [h] (what the driver runs for `hist rot` / `hist spha`) *)
+Definition rotation_of_object (hypot : T -> T -> T) (alpha : T) (dim : Z) (start : list T) (h : list vstep) : res (list (list T)) :=
+  rbind (vhistory hypot start h) (fun axis => rotation_matrix alpha dim axis).
+Definition spherical_of_object (hypot : T -> T -> T) (r theta phi : T) (start : list T) (h : list vstep) : res (list T) :=
+  rbind (vhistory hypot start h) (fun axis => spherical_axis hypot r theta phi axis).
+
 (** Matrix: components (rows of equal length), rows = components.size(), columns = components[0].size() for the
     shapes with at least one row that the histories produce. *)
 Definition mrowsn (m : list (list T)) : nat := length m.
@@ -221,7 +228,9 @@ Inductive mstep : Type :=
 | MTimes (s : T)                    (* M = M * s  and  M = s * M *)
 | MDivide (s : T)                   (* M = M / s *)
 | MResize (row col : nat)           (* M.Resize(row, col) *)
-| MKeep                             (* copies, assignments, M[i][j] = M[i][j], every const member with its result dropped *).
+| MKeep                             (* copies, assignments, M[i][j] = M[i][j], and the const members (Determinant, Inverse,
+                                       Orthogonal, Trace, Norm, Transpose, Return_Row ...) with their result dropped, on the square
+                                       non-singular matrices on which they return *).
 
 Definition mstep_apply (m : list (list T)) (s : mstep) : res (list (list T)) :=
   match s with
